@@ -27,7 +27,7 @@ def run(cmd, cwd, env=None, timeout=3000):
 wt = tempfile.mkdtemp(prefix="confirm-%s-" % pid)
 os.rmdir(wt)
 run("git -C /repo worktree add -q --detach %s HEAD" % wt, "/")
-tgt = "/tmp/confirm-target"
+tgt = os.environ.get("CONFIRM_TARGET", "/tmp/confirm-target")
 env = {"CARGO_TARGET_DIR": tgt, "CARGO_NET_OFFLINE": "true"}
 res = {}
 try:
